@@ -48,13 +48,13 @@ def gen(rng, tier):
         elif r < 0.50:
             ops.append(['send', p, a, rng.randrange(nag + 1)])
         elif r < 0.58:
-            ops.append(['procarg', a])
+            ops.append([rng.choice(['procarg', 'procarg', 'handoff']), a])
         elif r < 0.68:
             ops.append(['store', p, a, b])
         elif r < 0.74:
             ops.append(['unstore', p, a])
         elif r < 0.82:
-            ops.append([rng.choice(['managed', 'nested', 'mem']), p, a])
+            ops.append([rng.choice(['managed', 'nested', 'mem', 'shared', 'shared']), p, a])
         elif r < 0.94:
             ops.append(['drop', p, a])
         elif r < 0.97:
@@ -86,7 +86,7 @@ def tags(sim, sc, obs):
 
 def nontrivial(sim, sc, obs):
     ap = obs.get('applied', [])
-    return len(ap) >= 3 and (sc['nagents'] >= 2 or any(o in ('managed', 'nested', 'mem', 'store', 'send', 'procarg') for o in ap))
+    return len(ap) >= 3 and (sc['nagents'] >= 2 or any(o in ('managed', 'nested', 'mem', 'shared', 'store', 'send', 'procarg', 'handoff') for o in ap))
 
 
 def child_use(p):
@@ -294,6 +294,23 @@ def run(sim, sc):
                     r = ch.result()
                     ch = None
                     done = True
+            elif kind == 'handoff':
+                # the proxy is handed to a child as a Process argument and the parent lets go of it at once: the pickled copy
+                # in transit is the only reference until the child has rebuilt it
+                h = pick(party_handles(0), op[1])
+                if h is not None and model.kind[model.handles[(0, h)]] != 'Namespace':
+                    ch = Process(target=child_use, args=(mine[h],), name='harness-handoff-child')
+                    ch.start()
+                    del mine[h]
+                    del model.handles[(0, h)]
+                    try:
+                        r = ch.result()
+                    except Exception as e:
+                        sim.violation('lifetime:object-destroyed-while-its-only-reference-was-in-transit-to-a-child', {'exc': repr(e)[:300], 'applied': applied})
+                        ok = False
+                        break
+                    ch = None
+                    done = True
             elif kind == 'store':
                 p = op[1] % (nag + 1)
                 hs = party_handles(p)
@@ -329,6 +346,20 @@ def run(sim, sc):
                             mine[c].pop(key)
                     else:
                         agents[p].cmd('call', c, 'pop', () if key is None else (key,))
+                    done = True
+            elif kind == 'shared':
+                p = op[1] % (nag + 1)
+                hs = [n for n in party_handles(p) if model.kind[model.handles[(p, n)]] == 'Maker']
+                h = pick(hs, op[2])
+                if alive(p) and h is not None:
+                    n2 = fresh()
+                    if p == 0:
+                        mine[n2] = mine[h].shared_list()
+                    else:
+                        agents[p].cmd('callhold', h, 'shared_list', (), n2)
+                    ident = ident_of(p, n2)
+                    existing = [oid for oid, idn in model.ident.items() if idn == ident and oid in model.kind]
+                    model.handles[(p, n2)] = existing[0] if existing else model.new('sharedlist', ident)
                     done = True
             elif kind in ('managed', 'nested', 'mem'):
                 p = op[1] % (nag + 1)
